@@ -30,10 +30,10 @@ suite green (288/288):
   `tools/seedtest.sh` (patch applies to a clean checkout, demo passes/fails as
   claimed, pinned suite still 288/288) before keeping it.
 
-Across the seven rounds 77 of the 140 seeded changes were caught on first contact (11, 12, 10, 10, 13, 10, 11 of 20), the
-other 63 pointed at generator or oracle gaps that were then closed - each table below says which - and eight of the
-strengthenings exposed genuine defects of the unchanged tree (fixed, §5.1: C18 x2, C08 x2, C04, C15, C11, and the C08 bignum
-one that a seeding agent pointed out as a side observation).
+Across the eight rounds 87 of the 160 seeded changes were caught on first contact (11, 12, 10, 10, 13, 10, 11, 10 of 20), the
+other 73 pointed at generator or oracle gaps that were then closed - each table below says which - and eleven of the
+strengthenings exposed genuine defects of the unchanged tree (fixed, §5.1: C18 x2, C08 x2, C04, C15, C11, C05, C20, C10; the C08
+bignum one was pointed out by a seeding agent as a side observation).
 
 First contact with the first 20 seeded changes (quick tier, before any strengthening):
 11 caught at once (C01 C03 C05 C07 C08 C09 C12 C15 C16 C17 C19), 8 missed
@@ -148,6 +148,22 @@ helpers, option plumbing - or bugs that need two conditions at once) - first con
 | C13g | Twisted RawSocket: when `onOpen` raises after the session took the transport, the session is never told the transport is gone | for a failing onOpen I had accepted 0 or 1 `onClose` calls | exactly one (every transport and role does that on the unchanged tree) |
 | C17g | opening-handshake timeout ignored while a client waits for its HTTP proxy's CONNECT answer | no client went through an explicit proxy | client "open" scenarios with a configured proxy: proxy silent, proxy answers and server silent, both answer (early / at / after the deadline) |
 | C20g | encrypted EVENT decoded once per event: with two handlers on one subscription the second one runs with a payload whose embedded URI does not match | one handler per subscription | 1-3 handlers per subscription: all of them get the genuine payload, none of them any forged / swapped / superseded one |
+
+An **eighth round** (`seeded/<ID>h/`; seven earlier summaries given, same instructions as round 7) - first contact, quick tier,
+replays off: 10 caught at once (C02h C03h C06h C08h C09h C11h C12h C14h C15h C19h), 10 missed:
+
+| prop | seeded change needs | gap in my check | strengthening |
+|---|---|---|---|
+| C01h | client compresses with the server's window instead of the `client_max_window_bits` the server asked for; fails only when a later message repeats content sent more than 2^N octets earlier | C01 negotiated default windows only; payloads were either periodic (short distances) or unrelated | C01 draws window / context-takeover requests on both sides; a payload kind "dup" (prefixes of one incompressible stream, 600 .. 20000 octets) makes later messages refer far back; C12 additionally inflates each direction with an independent inflater of exactly the agreed window (read from the response header on the wire) |
+| C04h | two `unregister()` calls outstanding for one registration: the second UNREGISTERED raises KeyError, its request never completes | the machine refused a second unregister while one was pending | allowed (up to 3), plus an enumerated job: 2-3 outstanding unregister requests x every reply order x UNREGISTERED / ERROR mixes |
+| C05h | octets still in the send queue (two `sendMessage(sync=True)`) are written after `onClose` when the endpoint itself dropped the connection | no queued writes; the harness settled all zero-delay timers after every step; our own drop was only ever delivered by an explicit step | sends that leave a write queued across steps; an "auto loss" mode of the fake transports (the loop delivers the loss on its next turn, ahead of pending timers - as Twisted / asyncio do); the transport state is recorded at the moment `onClose` runs; and an exhaustive job over all 3-event (thorough: 4-event) sequences from a 15-step alphabet x 16 configurations. This exposed a genuine defect: a server's close reply queued behind such a write is discarded, yet the close is reported clean (fixed, §5.1) |
+| C07h | client compares the accept digest with `hmac.compare_digest`: TypeError escapes for a digest containing an octet >= 0x80 | non-ASCII octets only appeared in an extra header and the reason phrase | one non-ASCII octet inside each element the client judges (digest x every position, Upgrade, Connection, subprotocol, extension name / parameter, status code) and each the server judges (key, Upgrade, Connection, version) |
+| C10h | `check_types=True` wrapper calls the endpoint with bound arguments as keywords: variadic endpoints get wrong arguments or are never called | no registration used check_types | registration style "checked" (the wrapper is a coroutine: an INTERRUPT in the same read may cancel it before the endpoint ran - then exactly the cancellation ERROR is required) |
+| C13h | Twisted RawSocket server announces the power of two *below* a configured non-power-of-two maximum but enforces the configured one | limits were powers of two, and the effective limit was taken from the configuration | limits 1000 / 3000 / 5000 / 100000; the limit that counts is read from each side's handshake octets on the wire |
+| C16h | frame length reported as 0 for every frame of a compressed message: receive limits never apply to compressed messages | with compression negotiated the generated peer still sent uncompressed frames | messages sent compressed (RSV1): a raw-deflate body of stored blocks is built to the exact wire size, fragmented like any other, and the inflated text must arrive when within the limits |
+| C17h | a data frame and then the matching pong for the same ping start two ping chains: extra pings, responsive peer dropped | a ping was answered by a pong or by data, never both | answer kind "data, then the pong a moment later" (interval restarts at the data frame; exactly one ping per interval afterwards) |
+| C18h | `define()` of a class already defined under another URI returns early: the second URI stays unmapped | each class was mapped to one URI | the caller also maps the class to an alias URI, before or after |
+| C20h | `call()` swallows the codec's failure for arguments it cannot serialize and sends the CALL in the clear | payloads were always encodable by the codec | values the transport can carry but the codec cannot (set, frozenset, datetime, UUID, nested) in every direction: the operation may fail, the clear payload must not go out. On the unchanged tree the *result* direction did exactly that (fixed, §5.1), and the error direction left the invocation unanswered (C10's claim; fixed, §5.1) |
 
 Round 4 also produced two mutants that do not terminate (C15d on the receive path, C02d under interleaving): a check
 that hangs is useless, so every case / machine step / enumeration block now runs under a CPU-time guard (150 s of CPU of
